@@ -158,7 +158,8 @@ func ruleCacheMiddleware(c *Ctx, a *serverAnchors, want map[string]bool) {
 					firstNext = i
 				}
 			case e.Kind == "defer" && e.Depth == 0:
-				if deferAt < 0 {
+				// the discharging defer: the deferred function (transitively, within package server) calls HitForPass
+				if deferAt < 0 && e.Callee != nil && callsFunc(e.Callee, a.hitForPass, 2) {
 					deferAt = i
 				}
 			case e.Kind == "call" && e.Callee == a.setStat:
@@ -1212,4 +1213,29 @@ func isHeaderCall2(t *Term, method, header string) bool {
 	}
 	s, ok := t.Args[1].StrVal()
 	return ok && strings.EqualFold(s, header)
+}
+
+
+// callsFunc: f (or a pike function it statically calls, to the given depth)
+// contains a static call of target.
+func callsFunc(f, target *ssa.Function, depth int) bool {
+	if f == nil || f.Blocks == nil {
+		return false
+	}
+	for _, b := range f.Blocks {
+		for _, in := range b.Instrs {
+			ci, ok := in.(ssa.CallInstruction)
+			if !ok {
+				continue
+			}
+			callee := ci.Common().StaticCallee()
+			if callee == target {
+				return true
+			}
+			if depth > 0 && callee != nil && isPikeFunc(callee) && callsFunc(callee, target, depth-1) {
+				return true
+			}
+		}
+	}
+	return false
 }
